@@ -403,6 +403,11 @@ func init() {
 			if nd.depth >= depth {
 				continue
 			}
+			if !c.Deadline.IsZero() && time.Now().After(c.Deadline) {
+				rep.Exhaustive = false
+				rep.CapHit = fmt.Sprintf("time budget: %d states still in the frontier", len(frontier)+1)
+				break
+			}
 			for oi, op := range ops {
 				if nd.depth == 0 && oi%shards != shard {
 					continue // level-1 successors are split between the shards
@@ -465,7 +470,8 @@ func init() {
 				jobs = append(jobs, vx.Job{Scenario: "adminapi.bfs", Params: vx.P("depth", "2", "alphabet", "full", "shard", fmt.Sprint(s), "shards", "32"), Weight: 5})
 			}
 			for s := 0; s < 32; s++ {
-				jobs = append(jobs, vx.Job{Scenario: "adminapi.bfs", Params: vx.P("depth", "4", "alphabet", "reduced", "shard", fmt.Sprint(s), "shards", "32"), Weight: 9})
+				jobs = append(jobs, vx.Job{Scenario: "adminapi.bfs", Params: vx.P("depth", "3", "alphabet", "reduced", "shard", fmt.Sprint(s), "shards", "32"), BudgetS: 900, Weight: 8})
+				jobs = append(jobs, vx.Job{Scenario: "adminapi.bfs", Params: vx.P("depth", "4", "alphabet", "reduced", "shard", fmt.Sprint(s), "shards", "32"), BudgetS: 600, Weight: 9})
 			}
 		}
 		return jobs
